@@ -4,6 +4,7 @@ import (
 	"bytes"
 	"crypto/cipher"
 	"fmt"
+	"strings"
 	"testing"
 
 	"golang.org/x/crypto/nacl/box"
@@ -368,6 +369,63 @@ func genPos(t *rapid.T, label string, n int) int {
 	return rapid.IntRange(0, n-1).Draw(t, label+".pos")
 }
 
+// c02AccCase builds an accumulator-directed message and checks both clauses on
+// every path: the genuine ciphertext||tag opens to the reference plaintext,
+// and every wrong tag (tags with a dropped/extra carry at a limb boundary of
+// the length-block addition, structured changes of the tag) is rejected.
+func c02AccCase(c *ev.Collector, paths []path, key, nonce, ad []byte, ctLen, cls int, seed uint64) (bool, error) {
+	am, ok := solveAEADAcc(key, nonce, ad, ctLen, cls, seed)
+	if !ok {
+		c.Class("acc-target-unreachable:" + accClasses[cls])
+		return false, nil
+	}
+	c.Class("acc-target=" + accClasses[cls])
+	c.ClassN("acc-target:retries", am.tries-1)
+	if am.measured {
+		c.Class("acc-target:measured-hit-on-portable-state")
+	} else {
+		c.Class("acc-target:model-mismatch")
+	}
+	for _, p := range paths {
+		tg := chachaTarget(p, key, nonce, am.pt, ad, pat(seed, int(seed%3)), int(seed))
+		if !bytes.Equal(tg.fields[0], append(clone(am.ct), am.tag...)) {
+			return false, fmt.Errorf("HARNESS: reference Seal of the decrypted directed ciphertext does not reproduce it")
+		}
+		if err := c02Baseline(&tg, am.pt); err != nil {
+			return true, fmt.Errorf("path=%s target %s: genuine message rejected: %v; %s", p.name, accClasses[cls], err, am.describe(key, nonce, ad))
+		}
+		n := 0
+		try := func(name string, tag []byte) error {
+			mod := append(clone(am.ct), tag...)
+			res, err := c02Try(&tg, 0, mod)
+			if err != nil {
+				return fmt.Errorf("path=%s target %s, tag replaced by %s (%x): %v; %s", p.name, accClasses[cls], name, tag, err, am.describe(key, nonce, ad))
+			}
+			if res == "" {
+				n++
+			}
+			return nil
+		}
+		for _, ctag := range am.carryTags {
+			if err := try("the tag of a MAC with a dropped/extra carry in the length-block addition", ctag); err != nil {
+				return true, err
+			}
+		}
+		full := tg.fields[0]
+		for _, v := range structuredVariants(full, len(full)-16, len(full)) {
+			if err := try(v.name, v.b[len(full)-16:]); err != nil {
+				return true, err
+			}
+		}
+		if err := c02Baseline(&tg, am.pt); err != nil {
+			return true, fmt.Errorf("path=%s target %s: genuine message rejected after the forged ones: %v", p.name, accClasses[cls], err)
+		}
+		c.Evals(n)
+		c.Case(true, fmt.Sprintf("acc|%s|%d|%d|%d|%d", p.name, len(nonce), len(ad), ctLen, cls), "acc-directed:path="+p.name)
+	}
+	return true, nil
+}
+
 // c02Enumerate flips every single bit of every field and tries every
 // truncation/extension by 1..32 bytes of the sealed message.
 func c02Enumerate(c *ev.Collector, tg *target) (int, error) {
@@ -458,6 +516,21 @@ func TestC02(t *testing.T) {
 	bounds, _ := asmLengthBounds()
 	naclKinds := []string{"secretbox", "box", "box-precomputed", "box-anonymous"}
 	rapid.Check(t, func(rt *rapid.T) {
+		if rapid.IntRange(0, 6).Draw(rt, "accDirected") == 0 {
+			key, _ := genKey(rt, "accKey")
+			nonce := gen.RandBytes(rt, "accNonce", rapid.SampledFrom([]int{12, 24}).Draw(rt, "accNonceLen"))
+			ad := gen.RandBytes(rt, "accAD", rapid.IntRange(0, 300).Draw(rt, "accADLen"))
+			ctLen := rapid.SampledFrom(accCtLens).Draw(rt, "accCtLen")
+			cls := rapid.IntRange(0, len(accClasses)-1).Draw(rt, "accClass")
+			if _, err := c02AccCase(c, paths, key, nonce, ad, ctLen, cls, rapid.Uint64Range(0, 1<<40).Draw(rt, "accSeed")); err != nil {
+				if strings.HasPrefix(err.Error(), "HARNESS:") {
+					c.Inconclusive(err.Error())
+					rt.Fatalf("VF-INCONCLUSIVE: property=C02 %v", err)
+				}
+				rt.Fatalf("VF-VIOLATION: property=C02 %v", err)
+			}
+			return
+		}
 		var tgs []target
 		var pt []byte
 		scheme := rapid.IntRange(0, 9).Draw(rt, "scheme")
@@ -625,6 +698,33 @@ func TestC02(t *testing.T) {
 		}
 	}
 	c.Exhaustive("chacha20poly1305: |pt| 0..80 x {12,24}-byte nonce x path: all single-bit flips of sealed/nonce/ad/key + all truncations/extensions 1..32 (tamperings, this shard)", total)
+	// accumulator-directed table: ciphertext lengths on both sides of the assembly thresholds x AD lengths x target classes
+	accN := 0
+	for _, ctLen := range accCtLens {
+		for ai, adLen := range accAdLens {
+			for cls := range accClasses {
+				idx++
+				if !ev.Mine(idx) {
+					continue
+				}
+				nonceLen := []int{12, 24}[(ai+cls)%2]
+				seed := uint64(ctLen*1000 + adLen*10 + cls)
+				hit, err := c02AccCase(c, paths, pat(seed+1, 32), pat(seed+2, nonceLen), pat(seed+3, adLen), ctLen, cls, seed)
+				if err != nil {
+					if strings.HasPrefix(err.Error(), "HARNESS:") {
+						c.Inconclusive(err.Error())
+						t.Fatalf("VF-INCONCLUSIVE: property=C02 %v", err)
+					}
+					c.Violation(err.Error(), "")
+					t.Fatalf("VF-VIOLATION: property=C02 %v", err)
+				}
+				if hit {
+					accN++
+				}
+			}
+		}
+	}
+	c.Exhaustive(fmt.Sprintf("accumulator-directed messages: %d ct lengths x %d AD lengths x %d target classes (constructed in this shard)", len(accCtLens), len(accAdLens), len(accClasses)), accN)
 	// NaCl: secretbox and precomputed box for |m| 0..80 step, box/anonymous for a few lengths
 	total = 0
 	naclLens := map[string][]int{"secretbox": nil, "box-precomputed": {0, 1, 31, 32, 33, 64, 80}, "box": {0, 17, 40}, "box-anonymous": {0, 16, 33}}
